@@ -12,7 +12,9 @@ CONSTANTS
   Ends = {"close", "forget", "abandon"}
   Writers = TRUE
   MaxOps = 4
+  Parking = FALSE
   ResetOnOpen = TRUE
+  ResetOnStart = TRUE
   RegisterOnReach = FALSE
   EndChecksOnError = FALSE
   LogCalls = FALSE
